@@ -240,7 +240,14 @@ def coq_eval(name, body, timeout=1200):
     p = os.path.join(d, name + ".v")
     with open(p, "w") as f:
         f.write(body)
-    r = sh(["coqc", "-noglob"] + COQ_ARGS + [p], timeout=timeout, cwd=d)
+    def big_stack():
+        import resource
+        try:
+            soft, hard = resource.getrlimit(resource.RLIMIT_STACK)
+            resource.setrlimit(resource.RLIMIT_STACK, (hard, hard))
+        except Exception:
+            pass
+    r = sh(["coqc", "-noglob"] + COQ_ARGS + [p], timeout=timeout, cwd=d, preexec_fn=big_stack)
     if r.returncode != 0:
         raise TieBroken("coqc failed on %s:\n%s" % (p, r.stdout[-3000:]))
     return r.stdout
@@ -442,71 +449,150 @@ def canon_impls(i, ast):
     return "\n".join(out), names
 
 
+CHUNK = 36
+
+
+class RunnerSet:
+    """several runner binaries, each holding a chunk of the generated modules"""
+
+    def __init__(self):
+        self.exes = []        # (exe path, set of spec indices)
+        self.default = None
+
+    def exe_for(self, spec):
+        for exe, idx in self.exes:
+            if spec in idx:
+                return exe
+        return self.default
+
+
+def gen_rs_for(chunk, rt):
+    parts = ["mod srt { include!(%s); }" % json.dumps(rt["gen_default"]["path"])]
+    dispatch, sizes, types = [], [], {}
+    for i, path, ast in chunk:
+        parts.append("mod s%d { include!(%s); }" % (i, json.dumps(path)))
+        src, names = canon_impls(i, ast)
+        parts.append(src)
+        types[i] = [n for n, _ in names]
+        for n, ty in names:
+            dispatch.append('(%d, "%s") => case!(s%d::xdr::Error, s%d::xdr::WireSize, %s, alloc, off),'
+                            % (i, n, i, i, ty))
+            sizes.append('println!("size %d %s {}", std::mem::size_of::<%s>());' % (i, n, ty))
+    rt_src, _ = canon_impls(0, rt["ast"])
+    parts.append(rt_src.replace("s0::xdr::", "srt::xdr::"))
+    parts.append("fn dispatch(spec: usize, ty: &str, alloc: &Bytes, off: usize) -> String {\n"
+                 "if ty.starts_with('@') { return reader_dispatch(ty, alloc, off); }\n"
+                 "match (spec, ty) {\n%s\n_ => \"NOCASE\".to_string(),\n}\n}" % "\n".join(dispatch))
+    parts.append("fn print_sizes() {\n%s\n}" % "\n".join(sizes))
+    return "\n".join(parts) + "\n", types
+
+
 def build_runner(mods, tag):
-    """mods: list of (index, path of generated text, ast json).  Module 'srt' (generated from
-    RT_SPEC) is always added.  Returns (exe, types {index: [names]}, failed [index])."""
-    d = sync_crate("runner")
+    """mods: list of (index, path of generated text, ast json).  The modules are split into
+    chunks, each compiled into its own runner binary (one cargo workspace, built in parallel).
+    Module 'srt' (generated from RT_SPEC) is in every binary.
+    Returns (RunnerSet, types {index: [names]}, failed [(index, rustc output)])."""
     rt = run_front([RT_SPEC], tag + "_rt")[0]
     if rt["gen_default"]["outcome"] != "ok":
         raise TieBroken("the runtime specification is no longer accepted by generate()")
+    main_rs = open(os.path.join(VERIF, "harness", "runner", "src", "main.rs")).read()
+    cargo_toml = open(os.path.join(VERIF, "harness", "runner", "Cargo.toml")).read()
     failed = []
     mods = list(mods)
+    ws = os.path.join(WORK, "runnerws")
+    os.makedirs(ws, exist_ok=True)
     for attempt in range(6):
-        parts = ["mod srt { include!(%s); }" % json.dumps(rt["gen_default"]["path"])]
-        dispatch = []
-        sizes = []
+        chunks = [mods[k:k + CHUNK] for k in range(0, len(mods), CHUNK)] or [[]]
+        rs = RunnerSet()
         types = {}
-        for i, path, ast in mods:
-            parts.append("mod s%d { include!(%s); }" % (i, json.dumps(path)))
-            src, names = canon_impls(i, ast)
-            parts.append(src)
-            types[i] = [n for n, _ in names]
-            for n, ty in names:
-                dispatch.append('(%d, "%s") => case!(s%d::xdr::Error, s%d::xdr::WireSize, %s, alloc, off),'
-                                % (i, n, i, i, ty))
-                sizes.append('println!("size %d %s {}", std::mem::size_of::<%s>());' % (i, n, ty))
-        rt_src, rt_names = canon_impls(0, rt["ast"])
-        parts.append(rt_src.replace("s0::xdr::", "srt::xdr::"))
-        parts.append("fn dispatch(spec: usize, ty: &str, alloc: &Bytes, off: usize) -> String {\n"
-                     "if ty.starts_with('@') { return reader_dispatch(ty, alloc, off); }\n"
-                     "match (spec, ty) {\n%s\n_ => \"NOCASE\".to_string(),\n}\n}" % "\n".join(dispatch))
-        parts.append("fn print_sizes() {\n%s\n}" % "\n".join(sizes))
-        gen_rs = "\n".join(parts) + "\n"
-        key = hashlib.sha256((src_hash() + gen_rs + open(os.path.join(d, "src/main.rs")).read()).encode()).hexdigest()[:20]
-        for _, path, _a in mods:
-            key = hashlib.sha256((key + open(path).read()).encode()).hexdigest()[:20]
-        cached = os.path.join(WORK, "cache", "runner_" + key)
-        if os.path.exists(cached):
-            return cached, types, failed
-        with open(os.path.join(d, "src/gen.rs"), "w") as f:
-            f.write(gen_rs)
-        r = cargo_build(d)
-        if r.returncode == 0:
-            os.makedirs(os.path.join(WORK, "cache"), exist_ok=True)
-            shutil.copyfile(os.path.join(TARGET, "debug", "runner"), cached)
-            os.chmod(cached, 0o755)
-            return cached, types, failed
-        # find the modules that do not compile
-        bad = set()
-        for m in re.finditer(r'/(\d{5})\.(?:default|clone)\.rs', r.stdout):
-            bad.add(m.group(1))
-        for m in re.finditer(r'\bs(\d+)::xdr::', r.stdout):
-            bad.add("%05d" % int(m.group(1)))
-        bad_idx = set()
-        for i, path, _a in mods:
-            if os.path.basename(path)[:5] in bad or ("%05d" % i) in bad:
-                bad_idx.add(i)
-        if not bad_idx:
-            raise TieBroken("runner harness does not build:\n" + r.stdout[-4000:])
-        for b in sorted(bad_idx):
-            failed.append((b, r.stdout))
-        mods = [m for m in mods if m[0] not in bad_idx]
+        todo = []
+        for ci, chunk in enumerate(chunks):
+            gen_rs, ty = gen_rs_for(chunk, rt)
+            types.update(ty)
+            h = hashlib.sha256((src_hash() + gen_rs + main_rs).encode())
+            for _, path, _a in chunk:
+                h.update(open(path, "rb").read())
+            h.update(open(rt["gen_default"]["path"], "rb").read())
+            cached = os.path.join(WORK, "cache", "runner_" + h.hexdigest()[:20])
+            idx = set(i for i, _, _ in chunk)
+            if os.path.exists(cached):
+                rs.exes.append((cached, idx))
+            else:
+                todo.append((ci, gen_rs, cached, idx))
+        if todo:
+            members = []
+            for ci, gen_rs, cached, idx in todo:
+                d = os.path.join(ws, "r%d" % ci)
+                os.makedirs(os.path.join(d, "src"), exist_ok=True)
+                ct_ = cargo_toml.replace('name = "runner"', 'name = "runner%d"' % ci).replace("[workspace]\n", "")
+                ct_ = ct_.split("[profile.dev]")[0]
+                for fn, txt in (("Cargo.toml", ct_), ("src/main.rs", main_rs), ("src/gen.rs", gen_rs)):
+                    fp = os.path.join(d, fn)
+                    if not os.path.exists(fp) or open(fp).read() != txt:
+                        open(fp, "w").write(txt)
+                members.append("r%d" % ci)
+            with open(os.path.join(ws, "Cargo.toml"), "w") as f:
+                f.write("[workspace]\nmembers = [%s]\nresolver = \"2\"\n\n[profile.dev]\ndebug = 0\noverflow-checks = true\n"
+                        % ", ".join('"%s"' % m for m in members))
+            lock = os.path.join(ws, "Cargo.lock")
+            if not os.path.exists(lock):
+                shutil.copyfile(os.path.join(REPO, "Cargo.lock"), lock)
+            for ci, _g, _c, _i in todo:
+                try:
+                    os.remove(os.path.join(TARGET, "debug", "runner%d" % ci))
+                except OSError:
+                    pass
+            r = sh(["cargo", "build", "--offline", "--keep-going"], cwd=ws, env=CARGO_ENV, timeout=3000)
+            ok_all = True
+            bad_idx = set()
+            for ci, gen_rs, cached, idx in todo:
+                exe = os.path.join(TARGET, "debug", "runner%d" % ci)
+                built = r.returncode == 0 or ("could not compile `runner%d`" % ci) not in r.stdout
+                if built and os.path.exists(exe):
+                    os.makedirs(os.path.join(WORK, "cache"), exist_ok=True)
+                    shutil.copyfile(exe, cached)
+                    os.chmod(cached, 0o755)
+                    rs.exes.append((cached, idx))
+                else:
+                    ok_all = False
+            if not ok_all:
+                for m in re.finditer(r'/(\d{5})\.(?:default|clone)\.rs', r.stdout):
+                    bad_idx.add(int(m.group(1)))
+                for m in re.finditer(r'\bs(\d+)::xdr::', r.stdout):
+                    bad_idx.add(int(m.group(1)))
+                present = set(i for i, _, _ in mods)
+                bad_idx &= present
+                if not bad_idx:
+                    raise TieBroken("runner harness does not build:\n" + r.stdout[-4000:])
+                for b in sorted(bad_idx):
+                    # keep the part of the compiler output that mentions this module
+                    msgs = [blk for blk in r.stdout.split("\n\n") if ("%05d." % b) in blk or ("s%d::" % b) in blk]
+                    failed.append((b, "\n\n".join(msgs)[-3000:] or r.stdout[-3000:]))
+                mods = [m for m in mods if m[0] not in bad_idx]
+                continue
+        rs.default = rs.exes[0][0] if rs.exes else None
+        return rs, types, failed
     raise TieBroken("runner harness does not build after dropping modules")
 
 
 def run_runner(exe, cases, mem_limit=4 << 30, stack_limit=None):
     """cases: list of 'spec type off hex' strings.  Returns one output line per case; a case
-    that kills the process is reported as 'ABORT <signal>' and the runner is restarted."""
+    that kills the process is reported as 'ABORT <signal>' and the runner is restarted.
+    exe may be a RunnerSet: the cases are routed to the binary holding their module."""
+    if isinstance(exe, RunnerSet):
+        groups = {}
+        for n, c in enumerate(cases):
+            e = exe.exe_for(int(c.split(" ", 1)[0]))
+            groups.setdefault(e, []).append(n)
+        out = [None] * len(cases)
+
+        def work(item):
+            e, ns = item
+            return ns, run_runner(e, [cases[n] for n in ns], mem_limit, stack_limit)
+        for ns, lines in par(work, list(groups.items()), workers=8):
+            for n, l in zip(ns, lines):
+                out[n] = l
+        return out
     import resource
     import signal
 
@@ -535,6 +621,17 @@ def run_runner(exe, cases, mem_limit=4 << 30, stack_limit=None):
             out.append("ABORT %s %s" % (name, why))
             pos += 1
     return out[:len(cases)]
+
+
+def runner_sizes(rs):
+    sizes = {}
+    for exe, _ in (rs.exes if isinstance(rs, RunnerSet) else [(rs, None)]):
+        r = sh([exe, "sizes"])
+        for ln in r.stdout.split("\n"):
+            p = ln.split()
+            if len(p) == 4 and p[0] == "size":
+                sizes[(int(p[1]), p[2])] = int(p[3])
+    return sizes
 
 
 ALLOC_RE = re.compile(r' alloc=(\d+)(?: peak=(\d+))?')
